@@ -128,7 +128,8 @@ PROPS["C03"] = {
 }
 PROPS["C05"] = {
     "scope": "park/unpark token machine complete over all states (K)",
-    "kani": [TASK_SM[k] for k in ("park", "unpark", "notcum", "spur")],
+    # `unblock` (shared with C03) carries the clause "a pending unpark token survives being unblocked by another primitive"
+    "kani": [TASK_SM[k] for k in ("park", "unpark", "notcum", "spur", "unblock", "block")],
     "overlay_files": TASK_OVERLAY,
     "assumptions": [A_BT, A_DUMMY],
     "not_decided": [],
@@ -406,7 +407,7 @@ PROPS["C02"]["overlay_files"] = SEM_OVERLAY
 PROPS["C02"]["kani"].append(EXEC["yield"])
 
 # ---------------- shuttle-std: C04 / C05 / C06 ----------------
-STD_OVERLAY = SEM_OVERLAY + ["shuttle-std/src/sync/mutex.rs.append.rs", "shuttle-std/src/sync/rwlock.rs.append.rs",
+STD_OVERLAY = SEM_OVERLAY + ["shuttle-std/src/thread.rs.append.rs", "shuttle-std/src/sync/mutex.rs.append.rs", "shuttle-std/src/sync/rwlock.rs.append.rs",
                              "shuttle-std/src/sync/atomic/int.rs.append.rs", "shuttle-std/src/sync/mpsc.rs.append.rs",
                              "shuttle-std/src/sync/condvar.rs.append.rs", "shuttle-std/src/sync/barrier.rs.append.rs"]
 MUTEX = "shuttle-std/src/sync/mutex.rs"
@@ -506,10 +507,19 @@ PROPS["C06"] = {
                     "blocking send second segment", "eventual release of blocked endpoints (liveness)"],
 }
 
+THREAD = "shuttle-std/src/thread.rs"
+B_THR = "3 tasks; the other two tasks in one fixed configuration (one blocked, one parked); the caller's / target's park state symbolic"
 CVH = [
+    KSTD(Kb, "C05.thread.park", "c05_thread_park",
+         "park(): with a pending token it is consumed, no blocking, no choice point (legal omission: the park state is observable by the task "
+         "itself only); without one the task is blocked in park (spurious wake-ups permitted), a yield is requested and exactly one choice point "
+         "is reached; no token afterwards in either case; no other task touched", [THREAD + "::park"], B_THR),
+    KSTD(Kb, "C05.thread.unpark", "c05_thread_unpark",
+         "Thread::unpark(): one choice point per call; a parked target becomes Runnable and no token is left; a target that is not parked keeps "
+         "its state and holds exactly one token however often it is unparked; no other task touched", [THREAD + "::Thread::unpark"], B_THR),
 ]
-CVH += [
-]
+YIELD_NOW = KSTD(Kb, "C02.thread.yield_now", "c02_thread_yield_now",
+                 "yield_now(): exactly one choice point, reached with the yield request recorded; the task stays Runnable", [THREAD + "::yield_now"], B_THR)
 PROPS["C05"]["kani"] += CVH
 PROPS["C05"]["overlay_files"] = STD_OVERLAY
 PROPS["C05"]["assumptions"] += [A_TLS, A_HEAP, A_SWITCH,
@@ -518,7 +528,8 @@ PROPS["C05"]["not_decided"] = ["Condvar wait/notify_one: the harnesses (overlay 
                                "seeded mutant C05-condvar-epoch-front is NOT caught", "Barrier::wait: the harnesses (overlay barrier.rs.append.rs) time out on HashSet<TaskId> under CBMC (> 33 min) and were withdrawn, so seeded "
                                "mutant C02-barrier-will-block-off-by-one is NOT caught", "Once (closure under a Mutex across coroutine switches): not brought under contract",
                                "`always does release a waiter` as liveness"]
-PROPS["C05"]["scope"] = "park/unpark: the token machine on the real Task methods, complete over every (TaskState, ParkState, woken, waiter) (K)"
+PROPS["C05"]["scope"] = ("park/unpark: the token machine on the real Task methods, complete over every (TaskState, ParkState, woken, waiter) (K); "
+                          "the thread-level wrappers park() / Thread::unpark() on a real ExecutionState (Kb)")
 
 # C01: the data-source seeding chain is what replay relies on
 PROPS["C01"]["kani"] += [DATA["init"], DATA["chain"]]
@@ -556,12 +567,36 @@ PROPS["C15"]["not_decided"] = ["the per-primitive edges (which clock is joined w
                                "replay restricted to a target clock"]
 
 # C07: StorageMap (lane V)
+JOINH = [
+    KSTD(Kb, "C07.thread.join_finished", "c07_thread_join_finished",
+         "JoinHandle::join on a finished thread: returns the closure's published value exactly once (the slot is empty afterwards), never blocks; "
+         "exactly one choice point before the result is read", [THREAD + "::JoinHandle::join"], B_THR),
+    KSTD(Kb, "C07.thread.join_blocks_until_finished", "c07_thread_join_blocks_until_finished",
+         "JoinHandle::join on a running thread: at its single choice point the joiner is Blocked AND registered as the target's waiter (so the "
+         "target's exit wakes it); after the environment lets the target finish as thread_fn does (publish, Finished, wake the waiter) join "
+         "returns exactly the published value; no other task touched", [THREAD + "::JoinHandle::join"], B_THR),
+]
+THREAD_FN = Kb("C07.thread_fn.publishes_then_wakes", "c07_thread_fn_publishes_then_wakes",
+               "thread_fn (no thread-locals): the closure runs exactly once; afterwards its value is in the join slot, the registered joiner and "
+               "nobody else is Runnable, the registration is consumed; no choice point on the exit path when no detached task would be truncated",
+               ["shuttle-engine/src/thread_support.rs::thread_fn"], "3 tasks, no thread-local values (the HashMap inside StorageMap is out of CBMC's reach: lane V covers StorageMap)",
+               heavy=True, timeout_s=1500)
+PROPS["C07"]["kani"] += [THREAD_FN]
+JOIN_EARLY = KSTD(Kb, "C07.thread.join_survives_early_wake", "c07_thread_join_survives_early_wake",
+                  "JoinHandle::join made runnable BEFORE the joinee has published its result (Scope::spawn's closure wakes the scope owner when the "
+                  "last scoped closure returns, i.e. before thread_fn has run the thread-local destructors): it blocks again, still registered as "
+                  "the joinee's waiter, and returns exactly the published value afterwards (F8: it used to panic `target should have finished`)",
+                  [THREAD + "::JoinHandle::join"], B_THR)
+PROPS["C07"]["kani"] += JOINH + [JOIN_EARLY]
+PROPS["C07"]["overlay_files"] = STD_OVERLAY + ["shuttle-engine/src/thread_support.rs.append.rs"]
+PROPS["C07"]["assumptions"] += [A_TLS, A_HEAP, A_SWITCH, "rely at join's blocking choice point: the target finishes the way thread_fn does (publishes its value, becomes Finished, wakes its registered waiter)"]
+PROPS["C02"]["kani"] += JOINH
 PROPS["C07"]["verus_units"] = ["storage"]
 PROPS["C07"]["scope"] = ("StorageMap::{new,init,pop} proved unbounded on the extracted code: destruction order == initialisation order, each slot "
-                         "handed out exactly once, popped slots stay as tombstones (V); join waiter registration (K)")
+                         "handed out exactly once, popped slots stay as tombstones (V); join waiter registration (K); JoinHandle::join on a real ExecutionState (Kb)")
 PROPS["C07"]["assumptions"] += ["A-key: StorageKey's derived Hash/Eq obey the HashMap key model (the verified text uses a u64 key)",
                                 "A-std: vstd's specifications of HashMap / VecDeque"]
-PROPS["C07"]["not_decided"] = ["thread_fn exit sequence and LocalKey::try_with (HashMap under CBMC: no result in 25 min)",
+PROPS["C07"]["not_decided"] = ["thread_fn with thread-local values (destructors before publication) and LocalKey::try_with (HashMap under CBMC: no result in 25 min)",
                                "closure runs exactly once, scope(), names and ids reported inside a thread (coroutines)"]
 PROPS["C14"]["verus_units"] = ["storage"]
 PROPS["C14"]["not_decided"] = ["ExecutionState::cleanup() (order of draining tasks, storage destructors and clearing labels/tags): needs coroutines; "
@@ -569,7 +604,7 @@ PROPS["C14"]["not_decided"] = ["ExecutionState::cleanup() (order of draining tas
 PROPS["C14"]["scope"] = "a new ExecutionState is fresh and CurrentSchedule::init replaces the recorded schedule (K); global storage is drained in insertion order, each slot once (V, StorageMap)"
 
 # C02: every contracted operation asserts `switches() == 1` before its effect; reuse the complete ones here
-PROPS["C02"]["kani"] += [ATOM[0], LOCKS[0], LOCKS[2]] + DROP_C02
+PROPS["C02"]["kani"] += [ATOM[0], LOCKS[0], LOCKS[2]] + DROP_C02 + CVH + [YIELD_NOW]
 PROPS["C06"]["kani"] += DROP_C06
 PROPS["C02"]["overlay_files"] = STD_OVERLAY
 PROPS["C02"]["assumptions"] += [A_SWITCH]
@@ -577,7 +612,7 @@ PROPS["C02"]["scope"] = ("the per-operation sufficient condition: exactly one ch
                          "(atomics for all values, Mutex try_lock/lock: K; semaphore try_acquire, Acquire::poll: Kb); omitted points are legal "
                          "(unfair first poll skips the choice point only when it blocks); exit-truncation predicate (Kb)")
 PROPS["C02"]["not_decided"] = ["the meta-theorem `every sequentially consistent outcome is produced by some schedule` (exists over schedules, forall programs)",
-                               "operations not under contract: JoinHandle::join, thread::park wrapper, Once, spawn",
+                               "operations not under contract: Once, spawn, Condvar",
                                "Barrier::wait's legality condition (seeded mutant C02-barrier-will-block-off-by-one is NOT caught: harness withdrawn, see C05)"]
 
 # ---------------- C20 ----------------
